@@ -1,4 +1,6 @@
 import Props.C01
 import Props.C03
+import Props.C04
 import Props.C05
 import Props.C12
+import Props.C17
